@@ -31,7 +31,7 @@ pub trait Kernel<T: KNum> {
 //@ret o
 //@spec
         ensures o == orient_spec(pt(p), pt(q), pt(r)),
-//@before 1 `let res =`
+//@entry
         proof { T::ax_obeys(); T::ax_ring(); T::ax_order(); T::ax_zero(); }
 //@end
 }
